@@ -31,12 +31,17 @@ func init() {
 			"Pruefer: all codes of trees on n<=7 (8 in thorough) vertices, seeded trees n<=60 and structured long codes (n = 255..262, 302, 402, 602, 1002: stars, double stars, runs of 127..129 / 255..257 / 511..513 equal entries at small, middle and large labels, paths, caterpillars, seeded), encode and decode against the reference and both compositions (graphs compared through IsEdge only). " +
 			"graphs on 200..600 vertices with vertices of degree 129..n-1 (stars, hubs in sparse graphs) for graph6/sparse6/Multicode. " +
 			"Multicode: single records up to n=255 and concatenations of records including n=0 and n=1. " +
+			"held results (held.go): sessions keep every result of all nine functions (graph6/sparse6 strings, Multicode records, Pruefer codes, decoded graphs) of several inputs alive while the later calls of the same and of the other functions are made " +
+			"(all ordered pairs of 11 small graphs, the whole pool in one history, ladders of growing and shrinking sizes 0..255, seeded histories with repeated inputs and shuffled call order): every string / record / code is compared with the private copy taken when it was returned after every later call, every decoded graph is re-read through the observers at the end; then the caller overwrites the results it owns and the same calls are made again and must give the same answers. " +
+			"caller-owned buffers (buffers.go): the byte / int slices given to MulticodeDecode, MulticodeDecodeMultiple and PruferDecode (and the bytes the graph6 / sparse6 strings are built from) are sub-slices of larger buffers in six forms (own slice, middle of a buffer, prefix, exactly one spare element, three-index slice, large spare capacity) with sentinel, zero and plausible data around them; rows of flat tables of all Pruefer codes n<=5 (6 in thorough), prefixes and windows of longer sequences, records / prefixes / windows of Multicode streams, lines of graph6 / sparse6 texts; " +
+			"the encoders get DenseGraph / SparseGraph values whose Edges, DegreeSequence, neighbour lists (one CSR array) and list headers are sub-slices of buffers shared by a whole table of graphs; after every call the result is judged and every element of the caller's buffers (before, inside, behind the argument up to the capacity) must be unchanged. " +
 			"non-trivial = graph with n >= 3 and m >= 1; distinct = hash of (workload kind, adjacency)",
 		Assumptions: []string{
 			"oracle: internal/oracle/codec written from formats.txt and the definitions, validated at start-up on the formats.txt examples (N(n), DQc, :Fa@x^), the graph6/sparse6 pairs of the repository's own tests (written by nauty tools), Sage's Petersen strings, Cayley counts for Pruefer",
 			"Sparse6Encode's documentation promises the format used by showg/geng/nauty, so string equality with the ntos6 order is demanded; graph6 and Multicode are unique encodings",
 			"DenseGraph / SparseGraph values built by filling the exported fields are legal inputs of the encoders",
 			"PruferDecode's result is compared through IsEdge only (its missing edge count / degree sequence belongs to C06)",
+			"a value returned by a codec function belongs to the caller: it must read the same after any later call into the library (the round trip is demanded of the encoding the caller holds, not only of the bytes at the moment of return), and a slice argument is only read: the memory of the caller before it, inside it and behind it up to its capacity is unchanged by the call",
 		},
 		Run:            run,
 		MinEvaluations: map[string]int{"quick": 120000, "thorough": 1500000},
@@ -49,6 +54,18 @@ func init() {
 			"multicode:records", "multicode:concatenations", "multicode:n<=1_inside_concatenation",
 			"prufer:codes_decoded", "prufer:trees_encoded", "prufer:codes_with_a_value_occurring>=256_times",
 			"graphs:with_a_vertex_of_degree>=256",
+			// results of earlier calls re-read after later calls, for each of the nine functions
+			"held:Graph6Encode:results_reread_after_later_calls", "held:Sparse6Encode:results_reread_after_later_calls", "held:MulticodeEncode:results_reread_after_later_calls", "held:PruferEncode:results_reread_after_later_calls",
+			"held:Graph6Decode:results_reread_after_later_calls", "held:Sparse6Decode:results_reread_after_later_calls", "held:MulticodeDecode:results_reread_after_later_calls", "held:MulticodeDecodeMultiple:results_reread_after_later_calls", "held:PruferDecode:results_reread_after_later_calls",
+			"held:later_call_with_a_larger_input", "held:later_call_with_a_smaller_input", "held:later_call_with_an_input_of_the_same_size",
+			"held:calls_repeated_after_the_caller_overwrote_the_earlier_results",
+			// arguments inside larger caller-owned buffers, for each function
+			"buffers:Graph6Decode:calls_with_sub-slice_arguments", "buffers:Sparse6Decode:calls_with_sub-slice_arguments", "buffers:MulticodeDecode:calls_with_sub-slice_arguments", "buffers:MulticodeDecodeMultiple:calls_with_sub-slice_arguments", "buffers:PruferDecode:calls_with_sub-slice_arguments",
+			"buffers:Graph6Encode:graphs_whose_slices_are_sub-slices_of_shared_buffers", "buffers:Sparse6Encode:graphs_whose_slices_are_sub-slices_of_shared_buffers", "buffers:MulticodeEncode:graphs_whose_slices_are_sub-slices_of_shared_buffers", "buffers:PruferEncode:graphs_whose_slices_are_sub-slices_of_shared_buffers",
+			"buffers:form=1", "buffers:form=2", "buffers:form=3", "buffers:form=4", "buffers:form=5",
+			"buffers:PruferDecode:rows_of_a_flat_table", "buffers:PruferDecode:prefixes_and_windows_of_a_longer_sequence",
+			"buffers:MulticodeDecode:records_inside_a_stream", "buffers:MulticodeDecodeMultiple:prefixes_and_windows_of_a_stream",
+			"buffers:Graph6Decode:lines_of_a_larger_text", "buffers:Sparse6Decode:lines_of_a_larger_text",
 		},
 	})
 }
@@ -1472,4 +1489,9 @@ func run(c *engine.Ctx) {
 			}
 		})
 	}
+
+	// 9. results of earlier calls held across later calls (held.go)
+	heldUnits(c)
+	// 10. arguments that are sub-slices of larger caller-owned buffers (buffers.go)
+	bufferUnits(c)
 }
